@@ -288,4 +288,254 @@ theorem corr_reachable {s : St} (h : Reachable s) : Corr s := by
   | init => exact corr_init
   | step a _ ih => exact corr_of_step a ih
 
+/-! ## lifecycle invariant -/
+
+def gatedOut : Pc → Bool
+  | .idle | .waitReady | .done .closed | .done .ctx => true
+  | _ => false
+def unserved : Pc → Bool
+  | .idle | .waitReady | .queued | .done .closed | .done .ctx => true
+  | _ => false
+def exitedCount (s : St) : Nat := (if s.rd.isExited then 1 else 0) + (if s.wr.isExited then 1 else 0)
+def connSetup : Conn → Bool
+  | .off | .initial | .rejected => true
+  | _ => false
+def connLive : Conn → Bool
+  | .negIdle _ | .negotiating _ _ | .readying | .serving => true
+  | _ => false
+def extOrigin : Origin → Bool
+  | .caller _ false => true
+  | _ => false
+
+structure Life (s : St) : Prop where
+  notAcc : s.accepted = false → s.rd = .off ∧ s.wr = .off ∧ s.errs = [] ∧ s.negotiated = false
+  wrOff : s.wr = .off → s.written = []
+  setup : connSetup s.conn = true → s.accepted = false
+  early : (s.conn = .off ∨ s.conn = .initial) → s.first = none ∧ s.ready = false
+  gate : ∀ c, (s.callers c).internal = false → s.ready = false → gatedOut (s.callers c).pc = true
+  readyNeg : s.ready = true → s.accepted = true → s.negotiated = true
+  unservedExt : s.negotiated = false → ∀ c, (s.callers c).internal = false → unserved (s.callers c).pc = true
+  gatedW : ∀ w ∈ s.written, extOrigin w.origin = true → w.negotiated = true
+  gatedWr : ∀ f o, s.wr = .writing f o → extOrigin o = true → s.negotiated = true
+  errsCount : connLive s.conn = true → s.errs.length = exitedCount s
+  closeLast : ∀ w ∈ s.written.dropLast, w.f.typ ≠ tCloseConnection
+  closePark : (∃ w ∈ s.written, w.f.typ = tCloseConnection) → s.wr = .parked ∨ s.wr.isExited = true
+  waitDone : ∀ e, s.conn = .waitLoops e → s.done = true
+  retDone : ∀ e, s.conn = .returned e → s.done = true
+  wOrigin : ∀ w ∈ s.written, ∀ c i, w.origin = .caller c i → started (s.callers c).pc = true
+  wrOrigin : ∀ f c i, s.wr = .writing f (.caller c i) → started (s.callers c).pc = true
+  accLive : connLive s.conn = true → s.accepted = true
+
+theorem life_init : Life init := by
+  constructor <;> simp [init, connSetup, connLive, gatedOut, unserved, exitedCount, Rd.isExited, Wr.isExited]
+
+macro "life_case" : tactic =>
+  `(tactic| ((simp only [eff, leave]; repeat' split) <;> constructor <;> (try simp only [setC]) <;>
+      grind [enabled, canLeave, gatedOut, unserved, exitedCount, connSetup, connLive, extOrigin,
+      started, Rd.isExited, Wr.isExited, initialOk]))
+
+theorem life_peerSend {s : St} (f : _) (h : Life s) (he : enabled s (.peerSend f) = true) : Life (eff s (.peerSend f)) := by
+  obtain ⟨a1, a2, a3, a4, a5, a6, a7, a8, a9, a10, a11, a12, a13, a14, a15, a16, a17⟩ := h
+  life_case
+
+theorem life_peerClose {s : St}  (h : Life s) (he : enabled s .peerClose = true) : Life (eff s .peerClose) := by
+  obtain ⟨a1, a2, a3, a4, a5, a6, a7, a8, a9, a10, a11, a12, a13, a14, a15, a16, a17⟩ := h
+  life_case
+
+theorem life_callIssue {s : St} (c : _) (t : _) (p : _) (n : _) (h : Life s) (he : enabled s (.callIssue c t p n) = true) : Life (eff s (.callIssue c t p n)) := by
+  obtain ⟨a1, a2, a3, a4, a5, a6, a7, a8, a9, a10, a11, a12, a13, a14, a15, a16, a17⟩ := h
+  life_case
+
+theorem life_cancel {s : St} (c : _) (h : Life s) (he : enabled s (.cancel c) = true) : Life (eff s (.cancel c)) := by
+  obtain ⟨a1, a2, a3, a4, a5, a6, a7, a8, a9, a10, a11, a12, a13, a14, a15, a16, a17⟩ := h
+  life_case
+
+theorem life_close {s : St}  (h : Life s) (he : enabled s .close = true) : Life (eff s .close) := by
+  obtain ⟨a1, a2, a3, a4, a5, a6, a7, a8, a9, a10, a11, a12, a13, a14, a15, a16, a17⟩ := h
+  life_case
+
+theorem life_callReady {s : St} (c : _) (h : Life s) (he : enabled s (.callReady c) = true) : Life (eff s (.callReady c)) := by
+  obtain ⟨a1, a2, a3, a4, a5, a6, a7, a8, a9, a10, a11, a12, a13, a14, a15, a16, a17⟩ := h
+  life_case
+
+theorem life_callSeeDone {s : St} (c : _) (h : Life s) (he : enabled s (.callSeeDone c) = true) : Life (eff s (.callSeeDone c)) := by
+  obtain ⟨a1, a2, a3, a4, a5, a6, a7, a8, a9, a10, a11, a12, a13, a14, a15, a16, a17⟩ := h
+  life_case
+
+theorem life_callSeeCtx {s : St} (c : _) (h : Life s) (he : enabled s (.callSeeCtx c) = true) : Life (eff s (.callSeeCtx c)) := by
+  obtain ⟨a1, a2, a3, a4, a5, a6, a7, a8, a9, a10, a11, a12, a13, a14, a15, a16, a17⟩ := h
+  life_case
+
+theorem life_callToken {s : St} (c : _) (h : Life s) (he : enabled s (.callToken c) = true) : Life (eff s (.callToken c)) := by
+  obtain ⟨a1, a2, a3, a4, a5, a6, a7, a8, a9, a10, a11, a12, a13, a14, a15, a16, a17⟩ := h
+  life_case
+
+theorem life_callGetReply {s : St} (c : _) (h : Life s) (he : enabled s (.callGetReply c) = true) : Life (eff s (.callGetReply c)) := by
+  obtain ⟨a1, a2, a3, a4, a5, a6, a7, a8, a9, a10, a11, a12, a13, a14, a15, a16, a17⟩ := h
+  life_case
+
+theorem life_rdSeeDone {s : St}  (h : Life s) (he : enabled s .rdSeeDone = true) : Life (eff s .rdSeeDone) := by
+  obtain ⟨a1, a2, a3, a4, a5, a6, a7, a8, a9, a10, a11, a12, a13, a14, a15, a16, a17⟩ := h
+  life_case
+
+theorem life_rdHeader {s : St}  (h : Life s) (he : enabled s .rdHeader = true) : Life (eff s .rdHeader) := by
+  obtain ⟨a1, a2, a3, a4, a5, a6, a7, a8, a9, a10, a11, a12, a13, a14, a15, a16, a17⟩ := h
+  life_case
+
+theorem life_rdEof {s : St}  (h : Life s) (he : enabled s .rdEof = true) : Life (eff s .rdEof) := by
+  obtain ⟨a1, a2, a3, a4, a5, a6, a7, a8, a9, a10, a11, a12, a13, a14, a15, a16, a17⟩ := h
+  life_case
+
+theorem life_rdFail {s : St}  (h : Life s) (he : enabled s .rdFail = true) : Life (eff s .rdFail) := by
+  obtain ⟨a1, a2, a3, a4, a5, a6, a7, a8, a9, a10, a11, a12, a13, a14, a15, a16, a17⟩ := h
+  life_case
+
+theorem life_rdDispatch {s : St}  (h : Life s) (he : enabled s .rdDispatch = true) : Life (eff s .rdDispatch) := by
+  obtain ⟨a1, a2, a3, a4, a5, a6, a7, a8, a9, a10, a11, a12, a13, a14, a15, a16, a17⟩ := h
+  life_case
+
+theorem life_rdDeliver {s : St}  (h : Life s) (he : enabled s .rdDeliver = true) : Life (eff s .rdDeliver) := by
+  obtain ⟨a1, a2, a3, a4, a5, a6, a7, a8, a9, a10, a11, a12, a13, a14, a15, a16, a17⟩ := h
+  life_case
+
+theorem life_rdHandle {s : St}  (h : Life s) (he : enabled s .rdHandle = true) : Life (eff s .rdHandle) := by
+  obtain ⟨a1, a2, a3, a4, a5, a6, a7, a8, a9, a10, a11, a12, a13, a14, a15, a16, a17⟩ := h
+  life_case
+
+theorem life_rdWaitDone {s : St}  (h : Life s) (he : enabled s .rdWaitDone = true) : Life (eff s .rdWaitDone) := by
+  obtain ⟨a1, a2, a3, a4, a5, a6, a7, a8, a9, a10, a11, a12, a13, a14, a15, a16, a17⟩ := h
+  life_case
+
+theorem life_wrSeeDone {s : St}  (h : Life s) (he : enabled s .wrSeeDone = true) : Life (eff s .wrSeeDone) := by
+  obtain ⟨a1, a2, a3, a4, a5, a6, a7, a8, a9, a10, a11, a12, a13, a14, a15, a16, a17⟩ := h
+  life_case
+
+theorem life_wrPickAck {s : St}  (h : Life s) (he : enabled s .wrPickAck = true) : Life (eff s .wrPickAck) := by
+  obtain ⟨a1, a2, a3, a4, a5, a6, a7, a8, a9, a10, a11, a12, a13, a14, a15, a16, a17⟩ := h
+  life_case
+
+theorem life_wrPickReq {s : St} (c : _) (h : Life s) (he : enabled s (.wrPickReq c) = true) : Life (eff s (.wrPickReq c)) := by
+  obtain ⟨a1, a2, a3, a4, a5, a6, a7, a8, a9, a10, a11, a12, a13, a14, a15, a16, a17⟩ := h
+  simp [enabled] at he
+  have hacc : s.accepted = true := by
+    cases hq : s.accepted
+    · have := (a1 hq).2.1; rw [this] at he; simp at he
+    · rfl
+  have hneg : (s.callers c).internal = false → s.negotiated = true := by
+    intro hi
+    cases hr : s.ready
+    · have := a5 c hi hr; rw [he.2] at this; simp [gatedOut] at this
+    · exact a6 hr hacc
+  life_case
+
+theorem life_wrWrite {s : St}  (h : Life s) (he : enabled s .wrWrite = true) : Life (eff s .wrWrite) := by
+  obtain ⟨a1, a2, a3, a4, a5, a6, a7, a8, a9, a10, a11, a12, a13, a14, a15, a16, a17⟩ := h
+  life_case
+
+theorem life_wrFail {s : St}  (h : Life s) (he : enabled s .wrFail = true) : Life (eff s .wrFail) := by
+  obtain ⟨a1, a2, a3, a4, a5, a6, a7, a8, a9, a10, a11, a12, a13, a14, a15, a16, a17⟩ := h
+  life_case
+
+theorem life_wrParkedDone {s : St}  (h : Life s) (he : enabled s .wrParkedDone = true) : Life (eff s .wrParkedDone) := by
+  obtain ⟨a1, a2, a3, a4, a5, a6, a7, a8, a9, a10, a11, a12, a13, a14, a15, a16, a17⟩ := h
+  life_case
+
+theorem life_connStart {s : St}  (h : Life s) (he : enabled s .connStart = true) : Life (eff s .connStart) := by
+  obtain ⟨a1, a2, a3, a4, a5, a6, a7, a8, a9, a10, a11, a12, a13, a14, a15, a16, a17⟩ := h
+  life_case
+
+theorem life_connInitial {s : St} (p : _) (n : _) (h : Life s) (he : enabled s (.connInitial p n) = true) : Life (eff s (.connInitial p n)) := by
+  obtain ⟨a1, a2, a3, a4, a5, a6, a7, a8, a9, a10, a11, a12, a13, a14, a15, a16, a17⟩ := h
+  life_case
+
+theorem life_connInitialFail {s : St} (e : _) (h : Life s) (he : enabled s (.connInitialFail e) = true) : Life (eff s (.connInitialFail e)) := by
+  obtain ⟨a1, a2, a3, a4, a5, a6, a7, a8, a9, a10, a11, a12, a13, a14, a15, a16, a17⟩ := h
+  life_case
+
+theorem life_connRejectReady {s : St}  (h : Life s) (he : enabled s .connRejectReady = true) : Life (eff s .connRejectReady) := by
+  obtain ⟨a1, a2, a3, a4, a5, a6, a7, a8, a9, a10, a11, a12, a13, a14, a15, a16, a17⟩ := h
+  life_case
+
+theorem life_connNegSend {s : St} (c : _) (t : _) (p : _) (h : Life s) (he : enabled s (.connNegSend c t p) = true) : Life (eff s (.connNegSend c t p)) := by
+  obtain ⟨a1, a2, a3, a4, a5, a6, a7, a8, a9, a10, a11, a12, a13, a14, a15, a16, a17⟩ := h
+  life_case
+
+theorem life_connNegDone {s : St} (n : _) (h : Life s) (he : enabled s (.connNegDone n) = true) : Life (eff s (.connNegDone n)) := by
+  obtain ⟨a1, a2, a3, a4, a5, a6, a7, a8, a9, a10, a11, a12, a13, a14, a15, a16, a17⟩ := h
+  life_case
+
+theorem life_connNegErrs {s : St}  (h : Life s) (he : enabled s .connNegErrs = true) : Life (eff s .connNegErrs) := by
+  obtain ⟨a1, a2, a3, a4, a5, a6, a7, a8, a9, a10, a11, a12, a13, a14, a15, a16, a17⟩ := h
+  life_case
+
+theorem life_connReady {s : St}  (h : Life s) (he : enabled s .connReady = true) : Life (eff s .connReady) := by
+  obtain ⟨a1, a2, a3, a4, a5, a6, a7, a8, a9, a10, a11, a12, a13, a14, a15, a16, a17⟩ := h
+  simp [enabled] at he
+  life_case
+
+theorem life_connServeErr {s : St}  (h : Life s) (he : enabled s .connServeErr = true) : Life (eff s .connServeErr) := by
+  obtain ⟨a1, a2, a3, a4, a5, a6, a7, a8, a9, a10, a11, a12, a13, a14, a15, a16, a17⟩ := h
+  life_case
+
+theorem life_connServeDone {s : St}  (h : Life s) (he : enabled s .connServeDone = true) : Life (eff s .connServeDone) := by
+  obtain ⟨a1, a2, a3, a4, a5, a6, a7, a8, a9, a10, a11, a12, a13, a14, a15, a16, a17⟩ := h
+  life_case
+
+theorem life_connReturn {s : St}  (h : Life s) (he : enabled s .connReturn = true) : Life (eff s .connReturn) := by
+  obtain ⟨a1, a2, a3, a4, a5, a6, a7, a8, a9, a10, a11, a12, a13, a14, a15, a16, a17⟩ := h
+  life_case
+
+theorem life_connFailReturn {s : St}  (h : Life s) (he : enabled s .connFailReturn = true) : Life (eff s .connFailReturn) := by
+  obtain ⟨a1, a2, a3, a4, a5, a6, a7, a8, a9, a10, a11, a12, a13, a14, a15, a16, a17⟩ := h
+  life_case
+
+theorem life_step {s : St} {a : Act} (h : Life s) (he : enabled s a = true) : Life (eff s a) := by
+  cases a with
+  | peerSend f => exact life_peerSend f h he
+  | peerClose  => exact life_peerClose  h he
+  | callIssue c t p n => exact life_callIssue c t p n h he
+  | cancel c => exact life_cancel c h he
+  | close  => exact life_close  h he
+  | callReady c => exact life_callReady c h he
+  | callSeeDone c => exact life_callSeeDone c h he
+  | callSeeCtx c => exact life_callSeeCtx c h he
+  | callToken c => exact life_callToken c h he
+  | callGetReply c => exact life_callGetReply c h he
+  | rdSeeDone  => exact life_rdSeeDone  h he
+  | rdHeader  => exact life_rdHeader  h he
+  | rdEof  => exact life_rdEof  h he
+  | rdFail  => exact life_rdFail  h he
+  | rdDispatch  => exact life_rdDispatch  h he
+  | rdDeliver  => exact life_rdDeliver  h he
+  | rdHandle  => exact life_rdHandle  h he
+  | rdWaitDone  => exact life_rdWaitDone  h he
+  | wrSeeDone  => exact life_wrSeeDone  h he
+  | wrPickAck  => exact life_wrPickAck  h he
+  | wrPickReq c => exact life_wrPickReq c h he
+  | wrWrite  => exact life_wrWrite  h he
+  | wrFail  => exact life_wrFail  h he
+  | wrParkedDone  => exact life_wrParkedDone  h he
+  | connStart  => exact life_connStart  h he
+  | connInitial p n => exact life_connInitial p n h he
+  | connInitialFail e => exact life_connInitialFail e h he
+  | connRejectReady  => exact life_connRejectReady  h he
+  | connNegSend c t p => exact life_connNegSend c t p h he
+  | connNegDone n => exact life_connNegDone n h he
+  | connNegErrs  => exact life_connNegErrs  h he
+  | connReady  => exact life_connReady  h he
+  | connServeErr  => exact life_connServeErr  h he
+  | connServeDone  => exact life_connServeDone  h he
+  | connReturn  => exact life_connReturn  h he
+  | connFailReturn  => exact life_connFailReturn  h he
+
+theorem life_of_step {s : St} (a : Act) (h : Life s) : Life (step s a) := by
+  unfold step; split
+  · rename_i he; exact life_step h he
+  · exact h
+
+theorem life_reachable {s : St} (h : Reachable s) : Life s := by
+  induction h with
+  | init => exact life_init
+  | step a _ ih => exact life_of_step a ih
+
 end LLRP.LTS
